@@ -266,7 +266,7 @@ def forward(ck, rng, orc, cap, i):
             d = orc.decode(raw)
             ck.count(f'forward.{name}')
             ck.nontrivial(('flush', name))
-            if not d.get('ok') or d['type'] != t or d['flags'] != 5 or d['nlmsg_len'] != len(raw) or (name == 'FLUSHSA' and d.get('proto') != 0) or len(raw) - 16 > 4:
+            if not d.get('ok') or d['type'] != t or d['flags'] != 5 or d['nlmsg_len'] != len(raw) or (name == 'FLUSHSA' and d.get('proto') not in (0, 255)) or len(raw) - 16 > 4:
                 ck.violation(f'{name}-request-wrong', {'decoded': d}, {'raw': raw})
 
 
